@@ -318,6 +318,10 @@ def _expand_state_inner(task):
         for a, is_core in plan:
             valid = m0.enabled(a, dv, o0)
             fault = spec.get("faults") and not valid and not is_core
+            if spec.get("faults") and valid and not is_core and a[0] == "resize" and m0.ref.alive(a[2]) and \
+                    a[3] <= m0.ref.max_occupation(a[2]):
+                # shrinking below the occupied levels is an invalid request: judged by the C17 oracle in this check
+                fault = True
             if twin == "c18" and not valid and not is_core and a[0] in ("op", "kraus", "povm") and a[1].startswith("env:"):
                 # an invalid request (operand of another envelope): both twins must reject it alike
                 from .judge import _viol, Transition
